@@ -5,6 +5,7 @@
 import VsgModel.Engine.Config
 import VsgModel.Generated.Rules
 import VsgProofs.Lemmas.Config
+import VsgProofs.Lemmas.StrictSorted
 namespace Vsgm.C17
 open Vsgm Vsgm.Cfg Vsgm.Cfg.Lemmas
 
@@ -247,6 +248,9 @@ theorem config_in_dict : ∀ r ∈ Gen.ruleTable, r.configInDict = true := by de
 /-- rule ids are distinct and no rule has a configurable attribute called `debug` (hypotheses `hnodup`,
     `hdebug` of `oc_rule_section_idempotent`) -/
 theorem ids_distinct_no_debug : (Gen.ruleTable.map (·.id)).Nodup ∧ ∀ r ∈ Gen.ruleTable, "debug" ∉ r.configuration := by
-  decide +kernel
+  constructor
+  · -- the generated table is sorted by id: strict sortedness is checked in linear time
+    exact Lemmas.nodup_of_sorted_codes _ (by decide +kernel)
+  · decide +kernel
 
 end Vsgm.C17
